@@ -518,7 +518,134 @@ def random_for(run):
     return random.Random(f"tp/{run.seed}")
 
 
-SCENARIOS = {"tp": scn_tp, "net": scn_net, "retry_vn": scn_retry_vn, "hostile": scn_hostile, "garbage": scn_garbage, "h3": scn_h3}
+# ---- QPACK-blocked streams: genuine peer bytes, encoder stream delivered late ----
+def _h3_generate(r, victim_is_client, odd):
+    """A real H3Connection pair on capture-only QUIC stubs plays an exchange in
+    which header fields repeat (ls-qpack moves a repeated field to the dynamic
+    table, so later header blocks reference entries announced on the encoder
+    stream).  Returns (chunks sent by the victim's peer, its encoder stream id,
+    the API calls the victim's generator twin made)."""
+    from aioquic.h3.connection import H3Connection
+    from aioquic.quic.events import StreamDataReceived
+    from harness.paired import GenQuic
+    gc, gs = GenQuic(True), GenQuic(False)
+    hc, hs = H3Connection(gc), H3Connection(gs)
+    done = {id(gc): 0, id(gs): 0}
+
+    def pump():
+        for src, dst in ((gc, hs), (gs, hc)):
+            while done[id(src)] < len(src.chunks):
+                sid, data, fin = src.chunks[done[id(src)]]
+                done[id(src)] += 1
+                try:
+                    dst.handle_event(StreamDataReceived(data=data, end_stream=fin, stream_id=sid))
+                except Exception:  # noqa  (generator side only; the victim is what is observed)
+                    pass
+    pump()
+    pump()
+    extra = [r.choice(EXTRA_HEADERS if odd else [(b"x-ok", b"fine")]) for _ in range(2)] + \
+        [(b"x-repeated-" + bytes([97 + i]), b"value-" + bytes(r.randrange(97, 123) for _ in range(r.choice([3, 40])))) for i in range(3)]
+    req = [(b":method", b"GET"), (b":scheme", b"https"), (b":authority", b"localhost"), (b":path", b"/" + bytes(r.randrange(97, 123) for _ in range(6)))]
+    rsp = [(b":status", b"200")]
+    calls = {"client": [], "server": []}
+
+    def do(role, name, *args, **kw):
+        calls[role].append((name, args, kw))
+        try:
+            return getattr(hc if role == "client" else hs, name)(*args, **kw)
+        except Exception:  # noqa
+            return None
+    n = r.choice([2, 3, 4])
+    for i in range(n):
+        sid = gc.get_next_available_stream_id()
+        with_body = r.random() < 0.5
+        do("client", "send_headers", sid, req + extra[: r.randrange(len(extra) + 1)], end_stream=not with_body)
+        if with_body:
+            do("client", "send_data", sid, b"q" * r.choice([1, 300]), False)
+            do("client", "send_headers", sid, [(b"x-trailer", b"t")] + extra[2:], end_stream=True)     # trailers
+        pump()
+        if r.random() < 0.8:
+            # the same promised resource more than once: the second promise uses the dynamic table
+            for _ in range(r.choice([1, 2, 3])):
+                p = do("server", "send_push_promise", sid, req + extra[2:])
+                if p is not None and r.random() < 0.6:
+                    do("server", "send_headers", p, rsp + extra[2:], end_stream=r.random() < 0.5)
+        do("server", "send_headers", sid, rsp + extra[r.randrange(3):], end_stream=False)
+        do("server", "send_data", sid, b"b" * r.choice([1, 700]), False)
+        do("server", "send_headers", sid, [(b"x-trailer", b"t")] + extra[2:], end_stream=True)           # trailers
+        if r.random() < 0.5:
+            pump()
+    peer = gs if victim_is_client else gc
+    hp = hs if victim_is_client else hc
+    enc, dec = hp._local_encoder_stream_id, hp._local_decoder_stream_id
+    # the peer's decoder-stream instructions acknowledge insertions of the generator twin's encoder,
+    # whose choices depended on the acknowledgements it had seen: they are not replayed to the victim
+    chunks = [c for c in peer.chunks if c[0] != dec or len(c[1]) == 1 and c is next(x for x in peer.chunks if x[0] == dec)]
+    return chunks, enc, (calls["client"] if victim_is_client else [])
+
+
+def _delivery_order(r, chunks, enc_sid, order):
+    """a delivery order of the peer's chunks that preserves the order within each stream"""
+    if order == "natural":
+        return list(chunks)
+    if order == "encoder-last":
+        return [c for c in chunks if c[0] != enc_sid] + [c for c in chunks if c[0] == enc_sid]
+    if order == "encoder-late":
+        # every encoder-stream chunk is delivered right after the next chunk of another stream
+        out, held = [], []
+        for c in chunks:
+            if c[0] == enc_sid:
+                held.append(c)
+            else:
+                out.append(c)
+                out += held
+                held = []
+        return out + held
+    # random interleaving: repeatedly take the head of a random stream
+    queues = {}
+    for c in chunks:
+        queues.setdefault(c[0], []).append(c)
+    out = []
+    while queues:
+        sid = r.choice(sorted(queues))
+        out.append(queues[sid].pop(0))
+        if not queues[sid]:
+            del queues[sid]
+    return out
+
+
+def scn_h3_blocked(run):
+    from aioquic.quic.events import StreamDataReceived
+    s, r = run.sim, run.r
+    victim = s.client if run.opts["victim"] == "client" else s.server
+    if not s.handshake():
+        return
+    run.enable_h3(only=victim.name)
+    h3 = run.h3
+    s.transmit(victim)
+    chunks, enc_sid, twin_calls = _h3_generate(r, victim.is_client, run.opts.get("odd", False))
+    # the victim makes the API calls of its generator twin (so its own stream state matches) ...
+    for name, args, kw in twin_calls:
+        h3.call(victim, name, *args, **kw)
+    s.transmit(victim)
+    # ... and receives the peer's genuine bytes in the chosen order, optionally cut in two
+    blocked = 0
+    for sid, data, fin in _delivery_order(r, chunks, enc_sid, run.opts["order"]):
+        parts = [(data, fin)]
+        if len(data) > 1 and r.random() < run.opts.get("p_split", 0.0):
+            k = r.randrange(1, len(data))
+            parts = [(data[:k], False), (data[k:], fin)]
+        for d, f in parts:
+            h3.on_event(s, victim, StreamDataReceived(data=d, end_stream=f, stream_id=sid))
+            blocked += sum(1 for st in h3.conns[victim.name]._stream.values() if st.blocked)
+        if r.random() < 0.3:
+            s.transmit(victim)
+    run.rec._add("blocked-stream-steps", blocked)
+    s.transmit(victim)
+    _finish(run)
+
+
+SCENARIOS = {"h3_blocked": scn_h3_blocked, "tp": scn_tp, "net": scn_net, "retry_vn": scn_retry_vn, "hostile": scn_hostile, "garbage": scn_garbage, "h3": scn_h3}
 
 
 def plan(r, tier):
@@ -554,6 +681,12 @@ def plan(r, tier):
         victim, variant = tpv[i % len(tpv)]
         out.append(("tp", r.randrange(1 << 30),
                     {"victim": victim, "variant": variant, "mode": ["both", "file"][(i // len(tpv)) % 2]}))
+    orders = ["natural", "encoder-last", "encoder-late", "random"]
+    for i in range(16 * k):
+        out.append(("h3_blocked", r.randrange(1 << 30),
+                    {"victim": "client" if i % 4 != 3 else "server", "order": orders[(i // 4) % 4], "odd": i % 8 >= 6,
+                     "p_split": 0.3 if i % 5 == 4 else 0.0, "mode": ["both", "qlog", "file", "both"][i % 4],
+                     "client": {"alpn_protocols": ["h3"]}, "server": {"alpn_protocols": ["h3"]}}))
     return out
 
 
@@ -729,7 +862,10 @@ def main(tier):
         "send_datagram_frame/send_ping/request_key_update/change_connection_id and an odd close reason; Retry / Version "
         "Negotiation (valid, invalid, repeated, no common version, late); crafted peer transport parameters (every optional parameter "
         "present incl. preferred_address, long version_information, server-only parameters sent by a client, unknown / reserved ids, "
-        "maximal values, malformed values; in-memory QuicLogger and QuicFileLogger); hostile frames injected with live keys (every frame "
+        "maximal values, malformed values; in-memory QuicLogger and QuicFileLogger); QPACK-blocked streams (genuine bytes of a real "
+        "H3Connection peer with repeated header fields; HEADERS, trailers, PUSH_PROMISE, push-stream HEADERS; encoder stream "
+        "delivered in natural order / after everything / after the next chunk / randomly interleaved, chunks optionally cut); "
+        "hostile frames injected with live keys (every frame "
         "type with boundary values, truncated, unknown types, reserved header bits) in handshake and connected states; garbage "
         "datagrams in every connection state; HTTP/3 on both ends with odd header bytes (non-UTF-8 names/values), push, "
         "trailers, H3 datagrams, WebTransport streams, malformed H3 frames.  Non-trivial = more than 6 packets/events "
@@ -748,6 +884,11 @@ def replay(path):
     on, ron = paired.execute(scn, rp["seed"], rp["mode"], rp["opts"])
     d = paired.first_diff(off, on)
     print("first difference:", d)
+    for k in sorted(on):
+        if k.startswith("raise."):
+            for x in on[k]:
+                if x not in off.get(k, []):
+                    print("exception only with logging on:", k, x)
     probs = qlog_oracle(ron)
     for what, sig in probs:
         print("qlog oracle:", what)
